@@ -438,7 +438,10 @@ def _run_instance(c, tree, mod, label, recv, rep, timeout_ms, lookup):
             fv = r[1]
             if fv.kind != "fn" or (getattr(fv.d.node, "name", None) != want and not c.via.any_closure):
                 continue
-            starts.append((s1, fv.d))
+            # what the factory allocated is closure state, not something the loader activation allocated (C20)
+            for h_ in s1.heap.values():
+                h_.fresh = False
+            starts.append((s1, fv.d if not (fv.tag and fv.tag[0] == "memoized") else fv))
         if not starts:
             raise Unsupported(f"factory {c.via.entry} never returned closure {want}")
     else:
@@ -454,7 +457,8 @@ def _run_instance(c, tree, mod, label, recv, rep, timeout_ms, lookup):
         for nm, kd in c.params.items():
             params[nm] = make_param(interp, s0, nm, kd)
         spec_names = dict(entry_names) if c.via is not None else {}
-        spec_names.update({k_: v_ for k_, v_ in clo.env.items() if isinstance(v_, V)})
+        clo_env = (clo.d if isinstance(clo, V) else clo).env
+        spec_names.update({k_: v_ for k_, v_ in clo_env.items() if isinstance(v_, V)})
         for gn, gk in c.ghosts.items():
             spec_names[gn] = make_param(interp, s0, gn, gk)
         for gn, gv in c.consts.items():
@@ -464,10 +468,13 @@ def _run_instance(c, tree, mod, label, recv, rep, timeout_ms, lookup):
         for rq in c.requires:
             s0.assume(env0.eval_bool(rq))
         interp.entry_state = s0.fork()
-        a = clo.node.args
+        a = (clo.d if isinstance(clo, V) else clo).node.args
         pos = [params[p.arg] for p in a.posonlyargs + a.args if p.arg in params]
         kw = {p.arg: params[p.arg] for p in a.kwonlyargs if p.arg in params}
-        if clo.is_gen:
+        if isinstance(clo, V):
+            gen = interp.call(s0, clo, pos, kw)
+            clo = clo.d
+        elif clo.is_gen:
             envb = interp.bind_params(s0, clo.node, pos, kw, clo.env)
             gen = interp.run_generator(s0, clo, envb)
         else:
